@@ -249,31 +249,35 @@ def run(ctx):
             tol = 1e-4 if dt == np.float32 else 1e-9
             kind = 'float32' if dt == np.float32 else 'float64-wide'
         ctx.count('dense:' + kind)
-        line = TextLine(id='x', logits=lg)
-        d = line.get_dense_logits()
-        st = lg.toarray()
-        ctx.evaluations += 1
-        rep_in = dict(matrix=st.tolist(), dtype=kind)
-        if not np.array_equal(d[st != 0], st[st != 0]) or not np.all(d[st == 0] == -80):
-            ctx.violation('dense', 'dense reconstruction does not return stored logits / floor', rep_in)
-        lp = line.get_full_logprobs()
-        with np.errstate(all='ignore'):
-            rs = np.exp(np.asarray(lp, dtype=np.float64)).sum(axis=1)
-        if not np.all(np.isfinite(lp)) or np.abs(rs - 1).max() > max(tol, 1e-9) * 10:
-            ctx.violation('dense-normalised', 'full log-probs are not row-normalised', rep_in)
-        # the floor is a parameter of every call: repeated reconstructions of the SAME line with different floors
-        for floor in (rng.choice([-50.0, -20.0, -120.0]), -80, rng.choice([-30.0, -99.0])):
-            d2 = line.get_dense_logits(floor)
-            if not np.array_equal(d2[st != 0], st[st != 0]) or not np.all(d2[st == 0] == floor):
-                ctx.violation('dense-floor', 'dense reconstruction does not return the requested floor for pruned entries', dict(rep_in, floor=floor))
-            lp2 = line.get_full_logprobs(floor)
-            d64 = np.asarray(d2, dtype=np.float64)
-            ref = d64 - np.logaddexp.reduce(d64, axis=1)[:, np.newaxis]
+        try:
+            line = TextLine(id='x', logits=lg)
+            d = line.get_dense_logits()
+            st = lg.toarray()
+            ctx.evaluations += 1
+            rep_in = dict(matrix=st.tolist(), dtype=kind)
+            if not np.array_equal(d[st != 0], st[st != 0]) or not np.all(d[st == 0] == -80):
+                ctx.violation('dense', 'dense reconstruction does not return stored logits / floor', rep_in)
+            lp = line.get_full_logprobs()
             with np.errstate(all='ignore'):
-                bad = (not np.all(np.isfinite(lp2))) or np.abs(lp2 - ref).max(initial=0) > tol * (1 + np.abs(ref).max(initial=0)) \
-                    or np.abs(np.exp(np.asarray(lp2, dtype=np.float64)).sum(axis=1) - 1).max(initial=0) > max(tol, 1e-9) * 10
-            if bad:
-                ctx.violation('dense-floor-logprobs', 'log-probabilities are not the row-normalised dense logits for the requested floor', dict(rep_in, floor=floor))
+                rs = np.exp(np.asarray(lp, dtype=np.float64)).sum(axis=1)
+            if not np.all(np.isfinite(lp)) or np.abs(rs - 1).max() > max(tol, 1e-9) * 10:
+                ctx.violation('dense-normalised', 'full log-probs are not row-normalised', rep_in)
+            # the floor is a parameter of every call: repeated reconstructions of the SAME line with different floors
+            for floor in (rng.choice([-50.0, -20.0, -120.0]), -80, rng.choice([-30.0, -99.0])):
+                d2 = line.get_dense_logits(floor)
+                if not np.array_equal(d2[st != 0], st[st != 0]) or not np.all(d2[st == 0] == floor):
+                    ctx.violation('dense-floor', 'dense reconstruction does not return the requested floor for pruned entries', dict(rep_in, floor=floor))
+                lp2 = line.get_full_logprobs(floor)
+                d64 = np.asarray(d2, dtype=np.float64)
+                ref = d64 - np.logaddexp.reduce(d64, axis=1)[:, np.newaxis]
+                with np.errstate(all='ignore'):
+                    bad = (not np.all(np.isfinite(lp2))) or np.abs(lp2 - ref).max(initial=0) > tol * (1 + np.abs(ref).max(initial=0)) \
+                        or np.abs(np.exp(np.asarray(lp2, dtype=np.float64)).sum(axis=1) - 1).max(initial=0) > max(tol, 1e-9) * 10
+                if bad:
+                    ctx.violation('dense-floor-logprobs', 'log-probabilities are not the row-normalised dense logits for the requested floor', dict(rep_in, floor=floor))
+        except Exception as e:
+            ctx.violation('dense-raises:' + type(e).__name__, 'dense reconstruction / log-probabilities raised %r' % (e,), dict(matrix=lg.toarray().tolist(), dtype=kind))
+            continue
         if not np.array_equal(lg.toarray(), st):
             ctx.violation('dense-mutates', 'dense reconstruction modified the stored sparse logits', rep_in)
     # end-to-end rebuild: PAGE XML + logits -> same greedy text, same ALTO words
